@@ -805,7 +805,9 @@ Lemma ev_enter_closure : forall S f c fid slot0 vs st,
       | None => (st1, cl_env cl)
       end in
     let '(st3, rho) := bind_params st2 rho0 (cl_params cl) vs in
-    let c' := mkCtx rho true (cl_super cl) (cl_owner cl) slot0' (Datatypes.S (c_depth c)) in
+    let c' := mkCtx rho true (cl_super cl) (cl_owner cl) slot0' (Datatypes.S (c_depth c))
+                     (match cl_kind cl with KFun => cl_self cl | _ => Some slot0' end)
+                     (match cl_kind cl with KFun => true | _ => false end) in
     match ev S f c' (TS (cl_body cl)) st3 with
     | (st4, RNext _) => (st4, RVal (match cl_kind cl with KInit => slot0' | _ => VNil end))
     | (st4, RRet v) => (st4, RVal (match cl_kind cl with KInit => slot0' | _ => v end))
@@ -884,26 +886,46 @@ Qed.
 Lemma def_op_kind : forall k n m, def_op (n, static_of_kind k, m) = op_of_kind k n m.
 Proof. destruct k; reflexivity. Qed.
 
+
+Definition is_fun (k : fkind) : bool := match k with KFun => true | _ => false end.
+
+Fixpoint exprs_have_super (l : list expr) : bool :=
+  match l with [] => false | x :: r => expr_has_super x || exprs_have_super r end.
+Fixpoint stmts_known (b : bool) (l : list stmt) : bool :=
+  match l with [] => false | x :: r => stmt_known b x || stmts_known b r end.
+Fixpoint mdecls_known (l : list mdecl) : bool :=
+  match l with
+  | [] => false
+  | MDecl k _ _ body _ :: r => is_fun k || stmts_known false body || mdecls_known r
+  end.
+
+(* what a class definition guarantees about the closures it creates *)
+Definition new_closure_ok (supv : option value) (i : nat) (ms : list mdecl) (cl : closure) : Prop :=
+  cl_super cl = supv /\ cl_owner cl = Some i /\
+  (mdecls_known ms = false -> stmts_known (is_fun (cl_kind cl)) (cl_body cl) = false).
+
 Lemma define_methods_spec : forall rho supv i ms st defs st' defs',
   define_methods rho supv i ms st defs = Ok (st', defs') ->
   hist st' = hist st /\
-  exists nd, defs' = (defs ++ nd)%list /\ run_cops (mstore st) (map def_op nd) = Ok (mstore st') /\
-  (forall f cl, nth_error (closures st') f = Some cl -> nth_error (closures st) f = Some cl \/
-                (cl_super cl = supv /\ cl_owner cl = Some i)).
+  exists nd ncl, defs' = (defs ++ nd)%list /\ run_cops (mstore st) (map def_op nd) = Ok (mstore st') /\
+    closures st' = (closures st ++ ncl)%list /\ Forall (new_closure_ok supv i ms) ncl.
 Proof.
   induction ms as [|[k n ps body lab] r IH]; intros st defs st' defs' H; simpl in H.
-  - inversion H; subst. split; auto. exists []. rewrite app_nil_r. repeat split; auto.
+  - inversion H; subst. split; auto. exists [], []. rewrite !app_nil_r. repeat split; auto.
   - destruct (run_cop (mstore st) (op_of_kind k n (MClosure (List.length (closures st))))) as [cs|e m|w] eqn:E;
       try discriminate.
-    apply IH in H. destruct H as [Hh [nd [Hd [Hr Hc]]]]. simpl in Hh. split; auto.
-    exists ((n, static_of_kind k, MClosure (List.length (closures st))) :: nd). split; [|split].
+    apply IH in H. destruct H as [Hh [nd [ncl [Hd [Hr [Hc Hf]]]]]]. simpl in Hh, Hc. split; auto.
+    exists ((n, static_of_kind k, MClosure (List.length (closures st))) :: nd).
+    exists (mkCl n k ps body rho supv (Some i) None lab :: ncl). split; [|split; [|split]].
     + rewrite Hd. rewrite <- app_assoc. reflexivity.
     + cbn [map run_cops]. rewrite def_op_kind. rewrite E. cbn [rbind]. exact Hr.
-    + intros f cl Hf. destruct (Hc f cl Hf) as [Hold|Hnew]; auto. simpl in Hold.
-      destruct (Nat.lt_ge_cases f (List.length (closures st))) as [Hlt|Hge].
-      * left. rewrite nth_error_app1 in Hold; auto.
-      * rewrite nth_error_app2 in Hold by auto. destruct (f - List.length (closures st)) as [|j]; [|destruct j; discriminate].
-        simpl in Hold. inversion Hold; subst cl. right. auto.
+    + rewrite Hc. rewrite <- app_assoc. reflexivity.
+    + constructor.
+      * split; [reflexivity|]. split; [reflexivity|]. simpl. intros Hk.
+        apply orb_false_elim in Hk. destruct Hk as [Hk _]. apply orb_false_elim in Hk. destruct Hk as [Hfun Hb].
+        rewrite Hfun. exact Hb.
+      * eapply Forall_impl; [|exact Hf]. intros cl [H1 [H2 H3]]. split; auto. split; auto.
+        intros Hk. apply H3. simpl in Hk. apply orb_false_elim in Hk. tauto.
 Qed.
 
 Lemma run_cops_app : forall a b cs, run_cops cs (a ++ b) = rbind (run_cops cs a) (fun cs' => run_cops cs' b).
@@ -941,18 +963,17 @@ Lemma exec_class_inv : forall S c st cd st' o, Inv st -> (S = sem_mech \/ S = se
   exec_class S c st cd = (st', o) ->
   Inv st' /\
   (* the definition appends at most one entry, and the closures it creates capture the declared superclass *)
-  (hist st' = hist st \/
-   exists d, hist st' = (hist st ++ [d])%list /\
-     forall f cl, nth_error (closures st') f = Some cl ->
-       nth_error (closures st) f = Some cl \/
-       (cl_owner cl = Some (List.length (hist st)) /\ cl_super cl = option_map VClass (d_super d))).
+  ((hist st' = hist st /\ closures st' = closures st) \/
+   exists d ncl, hist st' = (hist st ++ [d])%list /\ closures st' = (closures st ++ ncl)%list /\
+     Forall (fun cl => cl_owner cl = Some (List.length (hist st)) /\ cl_super cl = option_map VClass (d_super d) /\
+                       (forall name sup defctor ms label, cd = CDecl name sup defctor ms label -> mdecls_known ms = false ->
+                          stmts_known (is_fun (cl_kind cl)) (cl_body cl) = false)) ncl).
 Proof.
   intros S c st [name sup defctor ms label] st' o HI Hcid H. unfold exec_class in H.
   destruct (declare c st name VNil) as [st1 rho] eqn:Ed.
   destruct (declare_hm _ _ _ _ _ _ Ed) as [Hh1 [Hm1 Hc1]].
   assert (Hi : s_next_cid S st1 = List.length (hist st)).
-  { (* next_cid reads only hist / mstore *)
-    destruct HI as [_ [Hlen _]]. destruct Hcid; subst S; simpl; rewrite ?Hm1, ?Hh1; auto. }
+  { destruct HI as [_ [Hlen _]]. destruct Hcid; subst S; simpl; rewrite ?Hm1, ?Hh1; auto. }
   cbn [run_cop of_res] in H.
   set (cs1 := mkCS (classes (mstore st1)) _) in H.
   set (st2 := set_mstore st1 cs1) in H.
@@ -968,10 +989,10 @@ Proof.
      (let '(st4, defs0) :=
           match defctor with
           | Some cn =>
-            let '(st', f) := new_closure st3 (mkCl cn KInit [] [] rho supv (Some (s_next_cid S st1)) label) in
+            let '(st', f) := new_closure st3 (mkCl cn KInit [] [] rho supv (Some (s_next_cid S st1)) None label) in
             match run_cop (mstore st') (OStaticMethod cn (MClosure f)) with
             | Ok cs' => (set_mstore st' cs', [(cn, true, MClosure f)])
-            | _ => (st', [])
+            | _ => (st3, [])
             end
           | None => (st3, [])
           end in
@@ -979,43 +1000,37 @@ Proof.
           let '(st5, defs) := sd in
           of_res (run_cop (mstore st5) ODefine) (fun cs' =>
             let st6 := set_hist (set_mstore st5 cs') (hist st5 ++ [mkDef name s defs]) in
-            of_res (assign rho st6 name (VClass (s_next_cid S st1))) (fun st7 => (st7, RNext rho)) st6) st5) st4) = r ->
+            of_res (assign rho st6 name (VClass (s_next_cid S st1))) (fun st7 => (st7, RNext rho)) st6) st3) st3) = r ->
      Inv (fst r) /\
-     (hist (fst r) = hist st \/
-      exists d, hist (fst r) = (hist st ++ [d])%list /\
-        forall f cl, nth_error (closures (fst r)) f = Some cl ->
-          nth_error (closures st) f = Some cl \/
-          (cl_owner cl = Some (List.length (hist st)) /\ cl_super cl = option_map VClass (d_super d)))).
+     ((hist (fst r) = hist st /\ closures (fst r) = closures st) \/
+      exists d ncl, hist (fst r) = (hist st ++ [d])%list /\ closures (fst r) = (closures st ++ ncl)%list /\
+        Forall (fun cl => cl_owner cl = Some (List.length (hist st)) /\ cl_super cl = option_map VClass (d_super d) /\
+                          (mdecls_known ms = false -> stmts_known (is_fun (cl_kind cl)) (cl_body cl) = false)) ncl)).
   { intros st3 supv s r Hh3 Hc3 Hcl3 [c0 [m0 [Hw3 Hrun3]]] Hs Hsupv Hr. rewrite Hi in Hr.
+    assert (HI3 : Inv st3) by (apply (Inv_ext st); auto).
     (* default constructor *)
-    assert (Hdc : exists st4 defs0,
+    assert (Hdc : exists st4 defs0 ncl0,
        (match defctor with
         | Some cn =>
-          let '(st', f) := new_closure st3 (mkCl cn KInit [] [] rho supv (Some (List.length (hist st))) label) in
+          let '(st', f) := new_closure st3 (mkCl cn KInit [] [] rho supv (Some (List.length (hist st))) None label) in
           match run_cop (mstore st') (OStaticMethod cn (MClosure f)) with
           | Ok cs' => (set_mstore st' cs', [(cn, true, MClosure f)])
-          | _ => (st', [])
+          | _ => (st3, [])
           end
         | None => (st3, [])
         end) = (st4, defs0) /\ hist st4 = hist st /\
        run_cops (mstore st3) (map def_op defs0) = Ok (mstore st4) /\
-       (forall f cl, nth_error (closures st4) f = Some cl -> nth_error (closures st) f = Some cl \/
-                     (cl_super cl = supv /\ cl_owner cl = Some (List.length (hist st))))).
+       closures st4 = (closures st ++ ncl0)%list /\ Forall (new_closure_ok supv (List.length (hist st)) ms) ncl0).
     { destruct defctor as [cn|].
-      - simpl. rewrite Hw3. simpl. eexists. eexists. split; [reflexivity|]. simpl. split; auto. split.
+      - simpl. rewrite Hw3. simpl. eexists. eexists. eexists. split; [reflexivity|]. simpl. split; auto. split; [|split].
         + rewrite Hw3. reflexivity.
-        + intros f cl Hf. rewrite Hcl3 in Hf.
-          destruct (Nat.lt_ge_cases f (List.length (closures st))) as [Hlt|Hge].
-          * left. rewrite nth_error_app1 in Hf; auto.
-          * rewrite nth_error_app2 in Hf by auto. destruct (f - List.length (closures st)) as [|j]; [|destruct j; discriminate].
-            simpl in Hf. inversion Hf; subst cl. right. auto.
-      - exists st3, []. split; auto. split; auto. split; [reflexivity|]. intros f cl Hf. left. rewrite <- Hcl3. auto. }
-    destruct Hdc as [st4 [defs0 [Edc [Hh4 [Hrun4 Hcl4]]]]]. rewrite Edc in Hr.
+        + rewrite Hcl3. reflexivity.
+        + constructor; [|constructor]. split; [reflexivity|]. split; [reflexivity|]. reflexivity.
+      - exists st3, [], []. rewrite app_nil_r. repeat split; auto. }
+    destruct Hdc as [st4 [defs0 [ncl0 [Edc [Hh4 [Hrun4 [Hcl4 Hf4]]]]]]]. rewrite Edc in Hr.
     destruct (define_methods rho supv (List.length (hist st)) ms st4 defs0) as [[st5 defs]|e m|w] eqn:Edm.
-    2,3: (simpl in Hr; subst r; simpl; split; [|left; auto];
-          apply (Inv_ext st); auto; rewrite <- Hc3;
-          apply (run_cops_classes _ _ _ Hrun4); apply def_ops_no_define).
-    destruct (define_methods_spec _ _ _ _ _ _ _ _ Edm) as [Hh5 [nd [Hdefs [Hrun5 Hcl5]]]].
+    2,3: (simpl in Hr; subst r; simpl; split; [exact HI3|left; auto]).
+    destruct (define_methods_spec _ _ _ _ _ _ _ _ Edm) as [Hh5 [nd [ncl5 [Hdefs [Hrun5 [Hcl5 Hf5]]]]]].
     simpl in Hr.
     (* the whole op sequence is define_class *)
     set (d := mkDef name s defs).
@@ -1038,44 +1053,595 @@ Proof.
     set (st6 := set_hist (set_mstore st5 csF) (hist st5 ++ [mkDef name s defs])) in Hr.
     assert (HI6 : Inv st6).
     { unfold Inv, st6. simpl. rewrite Hh5, Hh4. fold d. split; auto. }
-    assert (Hcl6 : forall f cl, nth_error (closures st6) f = Some cl ->
-              nth_error (closures st) f = Some cl \/
-              (cl_owner cl = Some (List.length (hist st)) /\ cl_super cl = option_map VClass (d_super d))).
-    { intros f cl Hf. simpl in Hf. destruct (Hcl5 f cl Hf) as [Hold|[Hs5 Ho5]].
-      - destruct (Hcl4 f cl Hold) as [Hold'|[Hs4 Ho4]]; auto. right. split; auto. rewrite Hs4. exact Hsupv.
-      - right. split; auto. rewrite Hs5. exact Hsupv. }
+    assert (Hcl6 : closures st6 = (closures st ++ (ncl0 ++ ncl5))%list /\
+              Forall (fun cl => cl_owner cl = Some (List.length (hist st)) /\ cl_super cl = option_map VClass (d_super d) /\
+                          (mdecls_known ms = false -> stmts_known (is_fun (cl_kind cl)) (cl_body cl) = false)) (ncl0 ++ ncl5)).
+    { split.
+      - simpl. rewrite Hcl5, Hcl4. rewrite <- app_assoc. reflexivity.
+      - apply Forall_app. split; (eapply Forall_impl; [|eassumption]); intros cl [H1 [H2 H3]];
+          (split; [exact H2|split; [rewrite H1; exact Hsupv|exact H3]]). }
+    destruct Hcl6 as [Hcl6 Hf6].
     destruct (assign rho st6 name (VClass (List.length (hist st)))) as [st7|e m|w] eqn:Ea; simpl in Hr; subst r; simpl.
     + destruct (assign_hm _ _ _ _ _ Ea) as [Hh7 [Hm7 Hc7]]. split.
       * apply (Inv_ext st6); auto. rewrite Hm7. reflexivity.
-      * right. exists d. split; [rewrite Hh7; simpl; rewrite Hh5, Hh4; reflexivity|]. rewrite Hc7. exact Hcl6.
-    + split; auto. right. exists d. split; [simpl; rewrite Hh5, Hh4; reflexivity|exact Hcl6].
-    + split; auto. right. exists d. split; [simpl; rewrite Hh5, Hh4; reflexivity|exact Hcl6]. }
+      * right. exists d, (ncl0 ++ ncl5)%list. split; [rewrite Hh7; simpl; rewrite Hh5, Hh4; reflexivity|]. rewrite Hc7. split; auto.
+    + split; auto. right. exists d, (ncl0 ++ ncl5)%list. split; [simpl; rewrite Hh5, Hh4; reflexivity|split; auto].
+    + split; auto. right. exists d, (ncl0 ++ ncl5)%list. split; [simpl; rewrite Hh5, Hh4; reflexivity|split; auto]. }
+  assert (Fin : forall r : state * oc,
+     Inv (fst r) /\
+     ((hist (fst r) = hist st /\ closures (fst r) = closures st) \/
+      exists d ncl, hist (fst r) = (hist st ++ [d])%list /\ closures (fst r) = (closures st ++ ncl)%list /\
+        Forall (fun cl => cl_owner cl = Some (List.length (hist st)) /\ cl_super cl = option_map VClass (d_super d) /\
+                          (mdecls_known ms = false -> stmts_known (is_fun (cl_kind cl)) (cl_body cl) = false)) ncl) ->
+     r = (st', o) ->
+     Inv st' /\
+     ((hist st' = hist st /\ closures st' = closures st) \/
+      exists d ncl, hist st' = (hist st ++ [d])%list /\ closures st' = (closures st ++ ncl)%list /\
+        Forall (fun cl => cl_owner cl = Some (List.length (hist st)) /\ cl_super cl = option_map VClass (d_super d) /\
+                  (forall name0 sup0 defctor0 ms0 label0, CDecl name sup defctor ms label = CDecl name0 sup0 defctor0 ms0 label0 ->
+                     mdecls_known ms0 = false -> stmts_known (is_fun (cl_kind cl)) (cl_body cl) = false)) ncl)).
+  { intros r [T1 T2] ->. simpl in T1, T2. split; auto. destruct T2 as [T2|[d [ncl [Ta [Tb Tc]]]]]; auto.
+    right. exists d, ncl. split; auto. split; auto. eapply Forall_impl; [|exact Tc].
+    intros cl [A1 [A2 A3]]. split; auto. split; auto. intros ? ? ? ? ? Heq. inversion Heq; subst. exact A3. }
+  assert (Hst2 : hist st2 = hist st /\ closures st2 = closures st) by (simpl; auto).
   destruct sup as [sn|].
-  - destruct (lookup_var (mkCtx rho (c_local c) (c_super c) (c_owner c) (c_slot0 c) (c_depth c)) st2 sn) as [v|e m|w] eqn:El;
-      simpl in H; try (inversion H; subst; split; [exact HI2|left; simpl; auto]).
+  - destruct (lookup_var (ctx_env c rho (c_local c)) st2 sn) as [v|e m|w] eqn:El;
+      simpl in H; try (inversion H; subst; split; [exact HI2|left; exact Hst2]).
     destruct v as [| | | | s | | | |];
-      try (simpl in H; inversion H; subst; split; [exact HI2|left; simpl; auto]).
+      try (simpl in H; inversion H; subst; split; [exact HI2|left; exact Hst2]).
     cbn [run_cop] in H. unfold st2 at 1 2 in H. cbn [mstore set_mstore working classes cs1] in H.
     destruct (nth_error (classes (mstore st1)) s) as [[sc sm]|] eqn:Es;
-      [|simpl in H; inversion H; subst; split; [exact HI2|left; simpl; auto]].
+      [|simpl in H; inversion H; subst; split; [exact HI2|left; exact Hst2]].
     cbn [of_res] in H.
     assert (Hsl : s < List.length (hist st)).
     { destruct HI as [_ [Hlen _]]. rewrite <- Hlen. rewrite <- Hm1. apply nth_error_Some. congruence. }
-    match type of H with ?lhs = _ => destruct (Tail (set_mstore st2 (mkCS (classes (mstore st1)) (Some
+    match type of H with ?lhs = _ => apply (Fin lhs); [|exact H];
+      apply (Tail (set_mstore st2 (mkCS (classes (mstore st1)) (Some
          (set_methods (set_super (objclass_new (CUser (List.length (classes (mstore st1)))) name CBaseMeta (object_of (mstore st1)) []) (Some (cid sc)))
             (tbl_insert_all (methods sc) (methods (objclass_new (CUser (List.length (classes (mstore st1)))) name CBaseMeta (object_of (mstore st1)) []))),
           objclass_new (CMeta (List.length (classes (mstore st1)))) (name ++ "Class") CBaseMeta (object_of (mstore st1)) []))))
-         (Some (VClass s)) (Some s) lhs) as [T1 T2] end; auto.
+         (Some (VClass s)) (Some s) lhs) end; auto.
     + simpl. rewrite Hm1. reflexivity.
     + eexists. eexists. split; [reflexivity|]. simpl. rewrite <- Hm1. rewrite Es. reflexivity.
     + intros s' Hs'. inversion Hs'; subst. exact Hsl.
-    + rewrite H in T1, T2. simpl in T1, T2. split; auto.
-  - match type of H with ?lhs = _ => destruct (Tail st2 None None lhs) as [T1 T2] end; auto.
+  - match type of H with ?lhs = _ => apply (Fin lhs); [|exact H]; apply (Tail st2 None None lhs) end; auto.
     + simpl. rewrite Hm1. reflexivity.
     + eexists. eexists. split; [reflexivity|]. simpl. rewrite <- Hm1. reflexivity.
     + intros s' Hs'. discriminate.
-    + rewrite H in T1, T2. simpl in T1, T2. split; auto.
 Qed.
+
+
+(* ====================================================================================================== *)
+(* eval_mech = eval_spec: the simulation *)
+
+Lemma exprs_fix : forall l,
+  (fix go (l : list expr) := match l with [] => false | x :: r => expr_has_super x || go r end) l = exprs_have_super l.
+Proof. induction l; simpl; congruence. Qed.
+Lemma stmts_fix : forall b l,
+  (fix go (l : list stmt) := match l with [] => false | x :: r => stmt_known b x || go r end) l = stmts_known b l.
+Proof. induction l; simpl; congruence. Qed.
+Lemma mdecls_fix : forall l,
+  (fix gm (l : list mdecl) := match l with
+     | [] => false
+     | MDecl k _ _ body _ :: r =>
+       (match k with KFun => true | _ => false end)
+       || (fix go (b : list stmt) := match b with [] => false | x :: r' => stmt_known false x || go r' end) body || gm r
+     end) l = mdecls_known l.
+Proof. induction l as [|[k n ps body lab] r IH]; simpl; auto. rewrite IH. rewrite stmts_fix. reflexivity. Qed.
+
+Lemma known_class_stmts : forall p, known_class p = stmts_known false p.
+Proof. unfold known_class. induction p; simpl; auto. rewrite IHp. reflexivity. Qed.
+
+Definition sup_ok (h : list cdef) (sup : option value) (owner : option nat) : Prop :=
+  match owner with
+  | Some o => exists d, nth_error h o = Some d /\ sup = option_map VClass (d_super d)
+  | None => sup = None
+  end.
+
+Definition cl_ok (h : list cdef) (cl : closure) : Prop :=
+  sup_ok h (cl_super cl) (cl_owner cl) /\ stmts_known (is_fun (cl_kind cl)) (cl_body cl) = false.
+
+Definition G (st : state) : Prop :=
+  Inv st /\ forall f cl, nth_error (closures st) f = Some cl -> cl_ok (hist st) cl.
+
+Definition ext (st st' : state) : Prop := exists hl, hist st' = (hist st ++ hl)%list.
+
+Definition C (st : state) (c : ctx) : Prop :=
+  sup_ok (hist st) (c_super c) (c_owner c) /\
+  (c_infn c = false -> c_self c = Some (c_slot0 c) \/ c_super c = None).
+
+Definition task_ok (b : bool) (t : task) : Prop :=
+  match t with
+  | TE e => b = true -> expr_has_super e = false
+  | TA es => b = true -> exprs_have_super es = false
+  | T1 s => stmt_known b s = false
+  | TS ss => stmts_known b ss = false
+  | TEnter _ _ => True
+  end.
+
+Definition Post (st : state) (r : state * oc) : Prop := G (fst r) /\ ext st (fst r).
+
+Lemma ext_refl : forall st, ext st st.
+Proof. intros. exists []. rewrite app_nil_r. reflexivity. Qed.
+Lemma ext_trans : forall a b c, ext a b -> ext b c -> ext a c.
+Proof. intros a b c [x Hx] [y Hy]. exists (x ++ y)%list. rewrite Hy, Hx, app_assoc. reflexivity. Qed.
+
+Lemma sup_ok_ext : forall h hl sup o, sup_ok h sup o -> sup_ok (h ++ hl) sup o.
+Proof.
+  intros h hl sup [o|] H; simpl in *; auto. destruct H as [d [Hd Hs]]. exists d. split; auto.
+  rewrite nth_error_app1; auto. apply nth_error_Some. congruence.
+Qed.
+Lemma C_ext : forall st st' c, C st c -> ext st st' -> C st' c.
+Proof. intros st st' c [H1 H2] [hl Hh]. split; auto. rewrite Hh. apply sup_ok_ext; auto. Qed.
+
+Definition core (st : state) := (hist st, mstore st, closures st).
+Lemma G_core : forall st st', core st' = core st -> G st -> G st'.
+Proof.
+  intros st st' Hc [HI Hcl]. unfold core in Hc. inversion Hc as [[Hh Hm Hc']]. split.
+  - apply (Inv_ext st); auto. rewrite Hm. reflexivity.
+  - rewrite Hc', Hh. auto.
+Qed.
+Lemma ext_core : forall st st', core st' = core st -> ext st st'.
+Proof. intros st st' Hc. inversion Hc as [[Hh Hm Hc']]. exists []. rewrite app_nil_r. auto. Qed.
+Lemma Post_core : forall st st' o, core st' = core st -> G st -> Post st (st', o).
+Proof. intros. split; simpl; [eapply G_core; eauto | apply ext_core; auto]. Qed.
+Lemma Post_trans : forall st st1 r, ext st st1 -> Post st1 r -> Post st r.
+Proof. intros st st1 r H [HG He]. split; auto. eapply ext_trans; eauto. Qed.
+
+Lemma bind_val_sim : forall st rM rS kM kS,
+  rM = rS -> Post st rS ->
+  (forall v st1, G st1 -> ext st st1 -> kM v st1 = kS v st1 /\ Post st1 (kS v st1)) ->
+  bind_val rM kM = bind_val rS kS /\ Post st (bind_val rS kS).
+Proof.
+  intros st rM rS kM kS -> [HG He] Hk. destruct rS as [st1 o]. simpl in HG, He.
+  destruct o; simpl; try (split; [reflexivity|split; auto]).
+  destruct (Hk v st1 HG He) as [E HP]. split; auto. eapply Post_trans; eauto.
+Qed.
+
+Lemma bind_vals_sim : forall st rM rS kM kS,
+  rM = rS -> Post st rS ->
+  (forall vs st1, G st1 -> ext st st1 -> kM vs st1 = kS vs st1 /\ Post st1 (kS vs st1)) ->
+  bind_vals rM kM = bind_vals rS kS /\ Post st (bind_vals rS kS).
+Proof.
+  intros st rM rS kM kS -> [HG He] Hk. destruct rS as [st1 o]. simpl in HG, He.
+  destruct o; simpl; try (split; [reflexivity|split; auto]).
+  destruct (Hk vs st1 HG He) as [E HP]. split; auto. eapply Post_trans; eauto.
+Qed.
+
+Lemma of_res_sim : forall {A} (rM rS : res A) kM kS st,
+  rM = rS -> G st -> (forall a, rS = Ok a -> kM a = kS a /\ Post st (kS a)) ->
+  of_res rM kM st = of_res rS kS st /\ Post st (of_res rS kS st).
+Proof.
+  intros A rM rS kM kS st -> HG Hk. destruct rS as [a|e m|w]; simpl.
+  - apply Hk; auto.
+  - split; auto. split; simpl; auto. apply ext_refl.
+  - split; auto. split; simpl; auto. apply ext_refl.
+Qed.
+
+Lemma display_eq : forall st v, G st -> display sem_mech st v = display sem_spec st v.
+Proof.
+  intros st v [HI _]. destruct v; try reflexivity. unfold display.
+  rewrite (cname_eq_spec st (CUser c) HI). reflexivity.
+Qed.
+Lemma type_name_eq : forall st v, G st -> type_name sem_mech st v = type_name sem_spec st v.
+Proof.
+  intros st v [HI _]. destruct v; try reflexivity; unfold type_name; apply cname_eq_spec; auto.
+Qed.
+
+Lemma C_ctx_env : forall st c rho loc, C st c -> C st (ctx_env c rho loc).
+Proof. intros st c rho loc H. exact H. Qed.
+
+Lemma ctx_ok_of_C : forall st c, C st c -> c_infn c = false -> ctx_ok st c.
+Proof.
+  intros st c [Hs Hself] Hf. split.
+  - exact Hs.
+  - intros Hne. unfold lexical_self. destruct (Hself Hf) as [E|E]; [rewrite E; reflexivity|contradiction].
+Qed.
+
+(* exec_class depends on the semantics only through the class number *)
+Lemma exec_class_eq : forall c st cd, G st -> exec_class sem_mech c st cd = exec_class sem_spec c st cd.
+Proof.
+  intros c st [name sup defctor ms label] [HI _]. unfold exec_class.
+  destruct (declare c st name VNil) as [st1 rho] eqn:Ed.
+  destruct (declare_hm _ _ _ _ _ _ Ed) as [Hh1 [Hm1 Hc1]].
+  assert (E : s_next_cid sem_mech st1 = s_next_cid sem_spec st1).
+  { apply next_cid_eq_spec. apply (Inv_ext st); auto. rewrite Hm1. reflexivity. }
+  rewrite E. reflexivity.
+Qed.
+
+Lemma G_new_closure : forall st cl, G st -> cl_ok (hist st) cl -> G (fst (new_closure st cl)).
+Proof.
+  intros st cl [HI Hcl] Hok. split.
+  - apply (Inv_ext st); auto.
+  - simpl. intros f c0 Hf. destruct (Nat.lt_ge_cases f (List.length (closures st))) as [Hlt|Hge].
+    + rewrite nth_error_app1 in Hf by auto. apply Hcl in Hf. exact Hf.
+    + rewrite nth_error_app2 in Hf by auto. destruct (f - List.length (closures st)) as [|j]; [|destruct j; discriminate].
+      simpl in Hf. inversion Hf; subst. exact Hok.
+Qed.
+
+Lemma cl_ok_ext : forall h hl cl, cl_ok h cl -> cl_ok (h ++ hl) cl.
+Proof. intros h hl cl [H1 H2]. split; auto. apply sup_ok_ext; auto. Qed.
+
+Lemma exec_class_post : forall c st cd b, G st -> stmt_known b (SClass cd) = false ->
+  Post st (exec_class sem_spec c st cd).
+Proof.
+  intros c st cd b [HI Hcl] Hk.
+  destruct (exec_class sem_spec c st cd) as [st' o] eqn:E.
+  destruct (exec_class_inv sem_spec c st cd st' o HI (or_intror eq_refl) E) as [HI' Hc].
+  destruct cd as [name sup defctor ms label]. simpl in Hk. rewrite mdecls_fix in Hk.
+  destruct Hc as [[Hh Hcs]|[d [ncl [Hh [Hcs Hf]]]]].
+  - split; simpl.
+    + split; auto. rewrite Hh, Hcs. exact Hcl.
+    + exists []. rewrite app_nil_r. auto.
+  - split; simpl.
+    + split; auto. rewrite Hh, Hcs. intros f cl Hfc.
+      destruct (Nat.lt_ge_cases f (List.length (closures st))) as [Hlt|Hge].
+      * rewrite nth_error_app1 in Hfc by auto. apply cl_ok_ext. apply (Hcl f cl Hfc).
+      * rewrite nth_error_app2 in Hfc by auto. apply nth_error_In in Hfc.
+        rewrite Forall_forall in Hf. destruct (Hf cl Hfc) as [Ho [Hs Hb]]. split.
+        -- unfold sup_ok. rewrite Ho. exists d. split; auto.
+           rewrite nth_error_app2 by lia. rewrite Nat.sub_diag. reflexivity.
+        -- eapply Hb; eauto.
+    + exists [d]. auto.
+Qed.
+
+(* one step of ev for each task shape *)
+Lemma ev_TE_get : forall S f c e1 n st, ev S (Datatypes.S f) c (TE (EGet e1 n)) st =
+  bind_val (ev S f c (TE e1) st) (fun recv st1 =>
+    of_res (s_get S st1 recv n) (fun v => (log_dispatch st1 recv n (bound_closure v), RVal v)) st1).
+Proof. reflexivity. Qed.
+Lemma ev_TE_invoke : forall S f c e1 n args st, ev S (Datatypes.S f) c (TE (EInvoke e1 n args)) st =
+  bind_val (ev S f c (TE e1) st) (fun recv st1 =>
+    bind_vals (ev S f c (TA args) st1) (fun vs st2 =>
+      of_res (s_invoke S st2 recv n (List.length vs))
+             (fun tg => ev S f c (TEnter tg vs) (log_dispatch st2 recv n (target_closure tg))) st2)).
+Proof. reflexivity. Qed.
+Lemma ev_TE_call : forall S f c e1 args st, ev S (Datatypes.S f) c (TE (ECall e1 args)) st =
+  bind_val (ev S f c (TE e1) st) (fun callee st1 =>
+    bind_vals (ev S f c (TA args) st1) (fun vs st2 =>
+      of_res (call_value (arities st2) callee (List.length vs)) (fun tg => ev S f c (TEnter tg vs) st2) st2)).
+Proof. reflexivity. Qed.
+Lemma ev_TE_superget : forall S f c n st, ev S (Datatypes.S f) c (TE (ESuperGet n)) st =
+  of_res (s_super_get S st c n)
+    (fun v => (log st (EvSuper (c_owner c) n (match bound_closure v with Some f => closure_owner st f | None => None end)), RVal v)) st.
+Proof. reflexivity. Qed.
+Lemma ev_TE_superinvoke : forall S f c n args st, ev S (Datatypes.S f) c (TE (ESuperInvoke n args)) st =
+  bind_vals (ev S f c (TA args) st) (fun vs st1 =>
+    of_res (s_super_invoke S st1 c n (List.length vs))
+      (fun tg => ev S f c (TEnter tg vs)
+                    (log st1 (EvSuper (c_owner c) n (match target_closure tg with Some f => closure_owner st1 f | None => None end)))) st1).
+Proof. reflexivity. Qed.
+Lemma ev_TE_eq : forall S f c a b st, ev S (Datatypes.S f) c (TE (EEq a b)) st =
+  bind_val (ev S f c (TE a) st) (fun va st1 =>
+    bind_val (ev S f c (TE b) st1) (fun vb st2 =>
+      match value_eqb va vb with
+      | Some r => (st2, RVal (VBool r))
+      | None => (st2, RStuck "equality of bound methods")
+      end)).
+Proof. reflexivity. Qed.
+Lemma ev_TA_cons : forall S f c e r st, ev S (Datatypes.S f) c (TA (e :: r)) st =
+  bind_val (ev S f c (TE e) st) (fun v st1 => bind_vals (ev S f c (TA r) st1) (fun vs st2 => (st2, RVals (v :: vs)))).
+Proof. reflexivity. Qed.
+Lemma ev_TS_cons : forall S f c s r st, ev S (Datatypes.S f) c (TS (s :: r)) st =
+  match ev S f c (T1 s) st with
+  | (st1, RNext rho) => ev S f (ctx_env c rho (c_local c)) (TS r) st1
+  | (st1, RVal _) | (st1, RVals _) => (st1, RStuck "statement outcome")
+  | other => other
+  end.
+Proof. reflexivity. Qed.
+
+Lemma core_log_dispatch : forall st recv n f, core (log_dispatch st recv n f) = core st.
+Proof.
+  intros. unfold log_dispatch. destruct recv; auto. destruct f; auto.
+  destruct (nth_error (heap st) a); auto. destruct (fld_get n (fields i)); auto.
+Qed.
+
+Lemma Post_same : forall st o, G st -> Post st (st, o).
+Proof. intros. split; simpl; auto. apply ext_refl. Qed.
+
+Lemma exprs_super_split : forall b e1 args,
+  (b = true -> expr_has_super e1 || exprs_have_super args = false) ->
+  (b = true -> expr_has_super e1 = false) /\ (b = true -> exprs_have_super args = false).
+Proof. intros b e1 args H. split; intros Hb; apply H in Hb; apply orb_false_elim in Hb; tauto. Qed.
+
+Lemma and_false_imp : forall b x : bool, b && x = false -> b = true -> x = false.
+Proof. intros b x H Hb. subst. exact H. Qed.
+
+Lemma ev_T1_print : forall S f c e st, ev S (Datatypes.S f) c (T1 (SPrint e)) st =
+  bind_val (ev S f c (TE e) st) (fun v st1 =>
+    match display S st1 v with
+    | Some l => (emit st1 l, RNext (c_env c))
+    | None => (st1, RStuck "display of an address-bearing value")
+    end).
+Proof. reflexivity. Qed.
+Lemma ev_T1_ptype : forall S f c e st, ev S (Datatypes.S f) c (T1 (SPrintType e)) st =
+  bind_val (ev S f c (TE e) st) (fun v st1 =>
+    match type_name S st1 v with
+    | Some l => (emit st1 ("<class " ++ l ++ ">"), RNext (c_env c))
+    | None => (st1, RStuck "type of a built-in value")
+    end).
+Proof. reflexivity. Qed.
+Lemma ev_T1_expr : forall S f c e st, ev S (Datatypes.S f) c (T1 (SExpr e)) st =
+  bind_val (ev S f c (TE e) st) (fun _ st1 => (st1, RNext (c_env c))).
+Proof. reflexivity. Qed.
+Lemma ev_T1_var : forall S f c x e st, ev S (Datatypes.S f) c (T1 (SVar x e)) st =
+  bind_val (ev S f c (TE e) st) (fun v st1 => let '(st2, rho) := declare c st1 x v in (st2, RNext rho)).
+Proof. reflexivity. Qed.
+Lemma ev_T1_assign : forall S f c x e st, ev S (Datatypes.S f) c (T1 (SAssign x e)) st =
+  bind_val (ev S f c (TE e) st) (fun v st1 => of_res (assign (c_env c) st1 x v) (fun st2 => (st2, RNext (c_env c))) st1).
+Proof. reflexivity. Qed.
+Lemma ev_T1_setfield : forall S f c o n e st, ev S (Datatypes.S f) c (T1 (SSetField o n e)) st =
+  bind_val (ev S f c (TE o) st) (fun recv st1 =>
+    bind_val (ev S f c (TE e) st1) (fun v st2 =>
+      of_res (set_property (world_of st2) recv n v) (fun w => (set_heap st2 (w_heap w), RNext (c_env c))) st2)).
+Proof. reflexivity. Qed.
+Lemma ev_T1_return : forall S f c e st, ev S (Datatypes.S f) c (T1 (SReturn (Some e))) st =
+  bind_val (ev S f c (TE e) st) (fun v st1 => (st1, RRet v)).
+Proof. reflexivity. Qed.
+Lemma ev_T1_class : forall S f c cd st, ev S (Datatypes.S f) c (T1 (SClass cd)) st = exec_class S c st cd.
+Proof. reflexivity. Qed.
+Lemma ev_T1_block : forall S f c body st, ev S (Datatypes.S f) c (T1 (SBlock body)) st =
+  match ev S f (ctx_env c (c_env c) true) (TS body) st with
+  | (st1, RNext _) => (st1, RNext (c_env c))
+  | other => other
+  end.
+Proof. reflexivity. Qed.
+Lemma ev_T1_try : forall S f c body st, ev S (Datatypes.S f) c (T1 (STry body)) st =
+  match ev S f (ctx_env c (c_env c) true) (TS body) st with
+  | (st1, RNext _) => (st1, RNext (c_env c))
+  | (st1, RErr k msg) => (emit (emit st1 ("<class " ++ ekind_name k ++ ">")) msg, RNext (c_env c))
+  | other => other
+  end.
+Proof. reflexivity. Qed.
+
+Lemma core_bind_params : forall ps vs st rho, core (fst (bind_params st rho ps vs)) = core st.
+Proof.
+  induction ps as [|p pr IH]; intros vs st rho; simpl; auto.
+  destruct vs as [|v vr]; simpl; auto. rewrite IH. reflexivity.
+Qed.
+
+Lemma ev_enter_native : forall S f c slot0 vs st, ev S (Datatypes.S f) c (TEnter (TNative NDerives slot0) vs) st =
+  match vs with
+  | [VClass q] => (st, RVal (VBool (s_derives S st (class_of (heap st) slot0) q)))
+  | [v] => match display S st v with
+           | Some d => (st, RErr ValueError ("Expected a class name but found '" ++ d ++ "'."))
+           | None => (st, RStuck "display of an address-bearing value")
+           end
+  | _ => (st, RErr TypeError ("Expected 1 parameter but found " ++ show_nat (List.length vs) ++ "."))
+  end.
+Proof. reflexivity. Qed.
+
+(* T eval_mech_eq_spec: the induction over the evaluator *)
+Lemma ev_sim : forall fuel c t st, G st -> C st c -> task_ok (c_infn c) t ->
+  ev sem_mech fuel c t st = ev sem_spec fuel c t st /\ Post st (ev sem_spec fuel c t st).
+Proof.
+  induction fuel as [|f IH]; intros c t st HG HC Ht.
+  - simpl. split; auto. apply Post_same; auto.
+  - assert (IHv : forall e st1, G st1 -> ext st st1 -> task_ok (c_infn c) (TE e) ->
+              ev sem_mech f c (TE e) st1 = ev sem_spec f c (TE e) st1 /\ Post st1 (ev sem_spec f c (TE e) st1)).
+    { intros e st1 H1 H2 H3. apply IH; auto. eapply C_ext; eauto. }
+    assert (IHa : forall es st1, G st1 -> ext st st1 -> task_ok (c_infn c) (TA es) ->
+              ev sem_mech f c (TA es) st1 = ev sem_spec f c (TA es) st1 /\ Post st1 (ev sem_spec f c (TA es) st1)).
+    { intros es st1 H1 H2 H3. apply IH; auto. eapply C_ext; eauto. }
+    assert (IHe : forall tg vs st1, G st1 -> ext st st1 ->
+              ev sem_mech f c (TEnter tg vs) st1 = ev sem_spec f c (TEnter tg vs) st1 /\
+              Post st1 (ev sem_spec f c (TEnter tg vs) st1)).
+    { intros tg vs st1 H1 H2. apply IH; simpl; auto. eapply C_ext; eauto. }
+    destruct t as [e|es|s|ss|tg vs].
+    + (* expressions *)
+      destruct e as [| b | z | s | x | | | e1 n | e1 n args | e1 args | n | n args | a b]; simpl in Ht.
+      * split; [reflexivity|apply Post_same; auto].
+      * split; [reflexivity|apply Post_same; auto].
+      * split; [reflexivity|apply Post_same; auto].
+      * split; [reflexivity|apply Post_same; auto].
+      * split; [reflexivity|]. simpl. destruct (lookup_var c st x); apply Post_same; auto.
+      * split; [reflexivity|]. simpl. destruct (assoc "self" (c_env c)); [destruct (nth_error (cells st) n)|]; apply Post_same; auto.
+      * split; [reflexivity|]. simpl. destruct (assoc "Self" (c_env c)); [destruct (nth_error (cells st) n); [destruct (get_class_op (heap st) v)|]|]; apply Post_same; auto.
+      * (* EGet *)
+        rewrite !ev_TE_get. destruct (IHv e1 st HG (ext_refl st) Ht) as [E P].
+        apply bind_val_sim; auto. intros recv st1 G1 X1.
+        apply of_res_sim; auto. { apply get_eq_spec. apply G1. }
+        intros v _. split; [reflexivity|]. apply Post_core; auto. apply core_log_dispatch.
+      * (* EInvoke *)
+        rewrite exprs_fix in Ht. destruct (exprs_super_split _ _ _ Ht) as [Ht1 Ht2].
+        rewrite !ev_TE_invoke. destruct (IHv e1 st HG (ext_refl st) Ht1) as [E P].
+        apply bind_val_sim; auto. intros recv st1 G1 X1.
+        destruct (IHa args st1 G1 X1 Ht2) as [E2 P2].
+        apply bind_vals_sim; auto. intros vs st2 G2 X2.
+        apply of_res_sim; auto. { apply invoke_eq_spec. apply G2. }
+        intros tg _.
+        assert (G3 : G (log_dispatch st2 recv n (target_closure tg))) by (eapply G_core; [apply core_log_dispatch|auto]).
+        assert (X3 : ext st (log_dispatch st2 recv n (target_closure tg))).
+        { eapply ext_trans; [exact X1|]. eapply ext_trans; [exact X2|]. apply ext_core. apply core_log_dispatch. }
+        destruct (IHe tg vs _ G3 X3) as [E3 P3]. split; auto.
+        eapply Post_trans; [|exact P3]. apply ext_core. apply core_log_dispatch.
+      * (* ECall *)
+        rewrite exprs_fix in Ht. destruct (exprs_super_split _ _ _ Ht) as [Ht1 Ht2].
+        rewrite !ev_TE_call. destruct (IHv e1 st HG (ext_refl st) Ht1) as [E P].
+        apply bind_val_sim; auto. intros callee st1 G1 X1.
+        destruct (IHa args st1 G1 X1 Ht2) as [E2 P2].
+        apply bind_vals_sim; auto. intros vs st2 G2 X2.
+        apply of_res_sim; auto. intros tg _. apply IHe; auto. eapply ext_trans; eauto.
+      * (* ESuperGet *)
+        assert (Hf : c_infn c = false) by (destruct (c_infn c); auto; specialize (Ht eq_refl); discriminate).
+        rewrite !ev_TE_superget.
+        apply of_res_sim; auto. { apply (proj1 (super_eq_spec st c n 0 (proj1 HG) (ctx_ok_of_C st c HC Hf))). }
+        intros v _. split; [reflexivity|]. apply Post_core; auto.
+      * (* ESuperInvoke *)
+        assert (Hf : c_infn c = false) by (destruct (c_infn c); auto; specialize (Ht eq_refl); discriminate).
+        rewrite !ev_TE_superinvoke.
+        assert (Hta : task_ok (c_infn c) (TA args)) by (simpl; rewrite Hf; discriminate).
+        destruct (IHa args st HG (ext_refl st) Hta) as [E P].
+        apply bind_vals_sim; auto. intros vs st1 G1 X1.
+        apply of_res_sim; auto.
+        { apply (proj2 (super_eq_spec st1 c n (List.length vs) (proj1 G1) (ctx_ok_of_C st1 c (C_ext _ _ _ HC X1) Hf))). }
+        intros tg _.
+        match goal with |- ev _ _ _ _ ?s = _ /\ _ => assert (G3 : G s) by (eapply G_core; [reflexivity|auto]);
+                                                      assert (X3 : ext st s) by (eapply ext_trans; [exact X1|apply ext_core; reflexivity]) end.
+        destruct (IHe tg vs _ G3 X3) as [E3 P3]. split; auto.
+      * (* EEq *)
+        destruct (exprs_super_split (c_infn c) a [b]) as [Ht1 Ht2].
+        { intros Hb. specialize (Ht Hb). simpl. rewrite orb_false_r. exact Ht. }
+        assert (Ht2' : c_infn c = true -> expr_has_super b = false).
+        { intros Hb. specialize (Ht2 Hb). simpl in Ht2. rewrite orb_false_r in Ht2. exact Ht2. }
+        rewrite !ev_TE_eq. destruct (IHv a st HG (ext_refl st) Ht1) as [E P].
+        apply bind_val_sim; auto. intros va st1 G1 X1.
+        destruct (IHv b st1 G1 X1 Ht2') as [E2 P2].
+        apply bind_val_sim; auto. intros vb st2 G2 X2.
+        split; [reflexivity|]. destruct (value_eqb va vb); apply Post_same; auto.
+    + (* argument lists *)
+      destruct es as [|e r]; simpl in Ht.
+      * split; [reflexivity|apply Post_same; auto].
+      * destruct (exprs_super_split _ _ _ Ht) as [Ht1 Ht2].
+        rewrite !ev_TA_cons. destruct (IHv e st HG (ext_refl st) Ht1) as [E P].
+        apply bind_val_sim; auto. intros v st1 G1 X1.
+        destruct (IHa r st1 G1 X1 Ht2) as [E2 P2].
+        apply bind_vals_sim; auto. intros vs st2 G2 X2. split; [reflexivity|apply Post_same; auto].
+    + (* one statement *)
+      destruct s as [e | e | e | x e | x e | o n e | [e|] | cd | name ps body label | body | body]; simpl in Ht.
+      * (* SPrint *)
+        rewrite !ev_T1_print. destruct (IHv e st HG (ext_refl st) (and_false_imp _ _ Ht)) as [E P].
+        apply bind_val_sim; auto. intros v st1 G1 X1. rewrite (display_eq st1 v G1).
+        split; [reflexivity|]. destruct (display sem_spec st1 v); [apply Post_core; auto|apply Post_same; auto].
+      * (* SPrintType *)
+        rewrite !ev_T1_ptype. destruct (IHv e st HG (ext_refl st) (and_false_imp _ _ Ht)) as [E P].
+        apply bind_val_sim; auto. intros v st1 G1 X1. rewrite (type_name_eq st1 v G1).
+        split; [reflexivity|]. destruct (type_name sem_spec st1 v); [apply Post_core; auto|apply Post_same; auto].
+      * (* SExpr *)
+        rewrite !ev_T1_expr. destruct (IHv e st HG (ext_refl st) (and_false_imp _ _ Ht)) as [E P].
+        apply bind_val_sim; auto. intros v st1 G1 X1. split; [reflexivity|apply Post_same; auto].
+      * (* SVar *)
+        rewrite !ev_T1_var. destruct (IHv e st HG (ext_refl st) (and_false_imp _ _ Ht)) as [E P].
+        apply bind_val_sim; auto. intros v st1 G1 X1. split; [reflexivity|].
+        destruct (declare c st1 x v) as [st2 rho] eqn:Ed. destruct (declare_hm _ _ _ _ _ _ Ed) as [A1 [A2 A3]].
+        apply Post_core; auto. unfold core. rewrite A1, A2, A3. reflexivity.
+      * (* SAssign *)
+        rewrite !ev_T1_assign. destruct (IHv e st HG (ext_refl st) (and_false_imp _ _ Ht)) as [E P].
+        apply bind_val_sim; auto. intros v st1 G1 X1. split; [reflexivity|].
+        destruct (assign (c_env c) st1 x v) as [st2|k m|w] eqn:Ea; simpl; try (apply Post_same; auto).
+        destruct (assign_hm _ _ _ _ _ Ea) as [A1 [A2 A3]].
+        apply Post_core; auto. unfold core. rewrite A1, A2, A3. reflexivity.
+      * (* SSetField *)
+        apply orb_false_elim in Ht. destruct Ht as [Ho He].
+        rewrite !ev_T1_setfield. destruct (IHv o st HG (ext_refl st) (and_false_imp _ _ Ho)) as [E P].
+        apply bind_val_sim; auto. intros recv st1 G1 X1.
+        destruct (IHv e st1 G1 X1 (and_false_imp _ _ He)) as [E2 P2].
+        apply bind_val_sim; auto. intros v st2 G2 X2. split; [reflexivity|].
+        destruct (set_property (world_of st2) recv n v); simpl; [apply Post_core; auto|apply Post_same; auto|apply Post_same; auto].
+      * (* SReturn (Some e) *)
+        rewrite !ev_T1_return. destruct (IHv e st HG (ext_refl st) (and_false_imp _ _ Ht)) as [E P].
+        apply bind_val_sim; auto. intros v st1 G1 X1. split; [reflexivity|apply Post_same; auto].
+      * (* SReturn None *)
+        split; [reflexivity|apply Post_same; auto].
+      * (* SClass *)
+        rewrite !ev_T1_class. split; [apply exec_class_eq; auto|].
+        eapply (exec_class_post c st cd (c_infn c)); auto.
+      * (* SFun *)
+        rewrite stmts_fix in Ht. split; [reflexivity|].
+        assert (Hcl : forall rho, cl_ok (hist st) (mkCl name KFun ps body rho (c_super c) (c_owner c) (c_self c) label)).
+        { intros rho. split; [exact (proj1 HC)|exact Ht]. }
+        simpl. destruct (c_local c); simpl.
+        -- pose (st1 := set_cells st (cells st ++ [VNil])%list).
+           assert (G1 : G st1) by (eapply G_core; [|exact HG]; reflexivity).
+           pose proof (G_new_closure st1 _ G1 (Hcl ((name, List.length (cells st)) :: c_env c))) as G2.
+           split; simpl; [|exists []; rewrite app_nil_r; reflexivity]. eapply G_core; [|exact G2]. reflexivity.
+        -- pose proof (G_new_closure st _ HG (Hcl (c_env c))) as G2.
+           split; simpl; [|exists []; rewrite app_nil_r; reflexivity]. eapply G_core; [|exact G2]. reflexivity.
+      * (* SBlock *)
+        rewrite stmts_fix in Ht. rewrite !ev_T1_block.
+        destruct (IH (ctx_env c (c_env c) true) (TS body) st HG (C_ctx_env _ _ _ _ HC) Ht) as [E [G1 X1]]. rewrite E.
+        destruct (ev sem_spec f (ctx_env c (c_env c) true) (TS body) st) as [st1 o1]. simpl in G1, X1.
+        split; [reflexivity|]. destruct o1; split; auto.
+      * (* STry *)
+        rewrite stmts_fix in Ht. rewrite !ev_T1_try.
+        destruct (IH (ctx_env c (c_env c) true) (TS body) st HG (C_ctx_env _ _ _ _ HC) Ht) as [E [G1 X1]]. rewrite E.
+        destruct (ev sem_spec f (ctx_env c (c_env c) true) (TS body) st) as [st1 o1]. simpl in G1, X1.
+        split; [reflexivity|]. destruct o1; split; simpl; auto.
+    + (* statement lists *)
+      destruct ss as [|s r]; simpl in Ht.
+      * split; [reflexivity|apply Post_same; auto].
+      * apply orb_false_elim in Ht. destruct Ht as [Hs Hr].
+        rewrite !ev_TS_cons.
+        destruct (IH c (T1 s) st HG HC Hs) as [E [G1 X1]]. rewrite E.
+        destruct (ev sem_spec f c (T1 s) st) as [st1 o1]. simpl in G1, X1.
+        destruct o1; try (split; [reflexivity|split; auto]).
+        assert (HC1 : C st1 (ctx_env c rho (c_local c))) by (apply C_ctx_env; eapply C_ext; eauto).
+        destruct (IH (ctx_env c rho (c_local c)) (TS r) st1 G1 HC1 Hr) as [E2 P2]. split; auto.
+        eapply Post_trans; eauto.
+    + (* entering a callee *)
+      destruct tg as [fid slot0|[] slot0].
+      * rewrite !ev_enter_closure.
+        destruct (nth_error (closures st) fid) as [cl|] eqn:Ecl; [|split; [reflexivity|apply Post_same; auto]].
+        destruct (Nat.eqb (c_depth c) frames_max); [split; [reflexivity|apply Post_same; auto]|].
+        destruct (match cl_kind cl with
+                  | KInit => let '(w, v) := construct (world_of st) slot0 in (set_heap st (w_heap w), v)
+                  | _ => (st, slot0)
+                  end) as [st1 slot0'] eqn:E1.
+        assert (K1 : core st1 = core st).
+        { destruct (cl_kind cl); try (inversion E1; reflexivity).
+          destruct (construct (world_of st) slot0) as [w v]. inversion E1. reflexivity. }
+        destruct (match slot0_name (cl_kind cl) with
+                  | Some nm => let '(s', a) := alloc_cell st1 slot0' in (s', (nm, a) :: cl_env cl)
+                  | None => (st1, cl_env cl)
+                  end) as [st2 rho0] eqn:E2.
+        assert (K2 : core st2 = core st).
+        { destruct (slot0_name (cl_kind cl)); simpl in E2; inversion E2; subst; simpl; auto. }
+        destruct (bind_params st2 rho0 (cl_params cl) vs) as [st3 rho] eqn:E3.
+        assert (K3 : core st3 = core st).
+        { pose proof (core_bind_params (cl_params cl) vs st2 rho0) as K. rewrite E3 in K. simpl in K. rewrite K. exact K2. }
+        assert (G3 : G st3) by (eapply G_core; eauto).
+        assert (X3 : ext st st3) by (apply ext_core; auto).
+        destruct (proj2 HG fid cl Ecl) as [Hsup Hbody].
+        cbv beta iota zeta.
+        set (c' := mkCtx rho true (cl_super cl) (cl_owner cl) slot0' (Datatypes.S (c_depth c))
+                         (match cl_kind cl with KFun => cl_self cl | _ => Some slot0' end)
+                         (match cl_kind cl with KFun => true | _ => false end)).
+        assert (HC' : C st3 c').
+        { split.
+          - simpl. assert (Hh : hist st3 = hist st) by (inversion K3; auto). rewrite Hh. exact Hsup.
+          - simpl. destruct (cl_kind cl); intros; try discriminate; left; reflexivity. }
+        assert (Ht' : task_ok (c_infn c') (TS (cl_body cl))).
+        { simpl. destruct (cl_kind cl); exact Hbody. }
+        destruct (IH c' (TS (cl_body cl)) st3 G3 HC' Ht') as [E [G4 X4]]. rewrite E.
+        destruct (ev sem_spec f c' (TS (cl_body cl)) st3) as [st4 o4]. simpl in G4, X4.
+        assert (X : ext st st4) by (eapply ext_trans; eauto).
+        split; [reflexivity|]. destruct o4; split; auto.
+      * rewrite !ev_enter_native.
+        destruct vs as [|v [|v2 vr]].
+        -- split; [reflexivity|apply Post_same; auto].
+        -- destruct v; try (rewrite (display_eq st _ HG); split; [reflexivity|];
+                            match goal with |- Post _ (match ?d with _ => _ end) => destruct d end; apply Post_same; auto).
+           rewrite (derives_all_eq_spec st _ c0 (proj1 HG)). split; [reflexivity|apply Post_same; auto].
+        -- destruct v; (split; [reflexivity|apply Post_same; auto]).
+Qed.
+
+
+Lemma G_st0 : G st0.
+Proof. split; [exact Inv_st0|]. intros f cl H. destruct f; discriminate. Qed.
+
+(* T eval_mech_eq_spec: for every program of the mini-language outside the known class (no `super` access in a
+   function nested in a method, no member declared as a plain function), the Mechanism - copy-down tables, `super` as a
+   captured value, slot 0 of the running frame as the receiver of super accesses - and the Spec - lookup along the
+   declared ancestry from the instance's class / from the declared superclass of the textually enclosing class, the
+   enclosing method's self - compute the same final state (globals, cells, instances, printed lines, trace, class
+   stores) and the same outcome, whatever the fuel. *)
+Theorem eval_mech_eq_spec : forall p, known_class p = false -> eval_mech p = eval_spec p.
+Proof.
+  intros p Hk. unfold eval_mech, eval_spec, run. apply ev_sim.
+  - exact G_st0.
+  - split; simpl; auto.
+  - simpl. rewrite <- known_class_stmts. exact Hk.
+Qed.
+
+Corollary eval_mech_eq_spec_fuel : forall fuel p, known_class p = false ->
+  ev sem_mech fuel ctx0 (TS p) st0 = ev sem_spec fuel ctx0 (TS p) st0.
+Proof.
+  intros fuel p Hk. apply ev_sim.
+  - exact G_st0.
+  - split; simpl; auto.
+  - simpl. rewrite <- known_class_stmts. exact Hk.
+Qed.
+
 
 (* ---------- examples: the hypotheses are satisfiable, the statements are not vacuous ---------- *)
 Definition ex_hier : prog := [
@@ -1144,35 +1710,8 @@ Example sample_programs_agree :
                     && String.eqb (show_outcome (eval_mech (meta_prog p))) (show_outcome (eval_mech p))) sample_programs = true.
 Proof. vm_compute. reflexivity. Qed.
 
-(* T eval_mech_eq_spec_partial.
-   FULL statement (not proved):  forall p, known_class p = false -> eval_mech p = eval_spec p.
-   Proved: the invariant `Inv` (M's tables are the copy-down of the declared history) holds initially and is
-   preserved by the only step that changes either component (a class definition, under either semantics), the
-   closures a definition creates capture exactly the declared superclass, and on every state satisfying `Inv` every
-   operation in which the two evaluators differ returns the same result.  Missing: the induction over `ev` that
-   threads these facts through all other (shared) evaluation steps, and the syntactic side condition that a `super`
-   access is never evaluated in the frame of a nested function.  Tested instead by vm_compute (above and by the
-   check, on every generated program). *)
-Theorem eval_mech_eq_spec_partial :
-  Inv st0 /\
-  (forall S c st cd st' o, Inv st -> (S = sem_mech \/ S = sem_spec) -> exec_class S c st cd = (st', o) ->
-     Inv st' /\
-     (hist st' = hist st \/
-      exists d, hist st' = (hist st ++ [d])%list /\
-        forall f cl, nth_error (closures st') f = Some cl ->
-          nth_error (closures st) f = Some cl \/
-          (cl_owner cl = Some (List.length (hist st)) /\ cl_super cl = option_map VClass (d_super d)))) /\
-  (forall st, Inv st ->
-     (forall recv n, s_get sem_mech st recv n = s_get sem_spec st recv n) /\
-     (forall recv n argc, s_invoke sem_mech st recv n argc = s_invoke sem_spec st recv n argc) /\
-     (forall c n argc, ctx_ok st c -> s_super_get sem_mech st c n = s_super_get sem_spec st c n /\
-                                      s_super_invoke sem_mech st c n argc = s_super_invoke sem_spec st c n argc) /\
-     (forall r q, s_derives sem_mech st r q = s_derives sem_spec st r q) /\
-     s_next_cid sem_mech st = s_next_cid sem_spec st /\
-     (forall r, s_cname sem_mech st r = s_cname sem_spec st r)).
-Proof.
-  split; [exact Inv_st0|]. split; [exact exec_class_inv|exact sem_ops_agree].
-Qed.
+Example eval_mech_eq_spec_hyp_satisfiable : known_class ex_hier = false.
+Proof. vm_compute. reflexivity. Qed.
 
 Print Assumptions copydown_eq_chainwalk.
 Print Assumptions invoke_eq_get_then_call.
@@ -1183,5 +1722,7 @@ Print Assumptions derives_iff_ancestor.
 Print Assumptions constructor_returns_instance.
 Print Assumptions no_implicit_super_init.
 Print Assumptions class_errors_table.
-Print Assumptions eval_mech_eq_spec_partial.
+Print Assumptions sem_ops_agree.
+Print Assumptions exec_class_inv.
+Print Assumptions eval_mech_eq_spec.
 Print Assumptions eval_mech_eq_spec_refuted_in_known_class.
